@@ -503,6 +503,7 @@ func runC05(c *core.Ctx) {
 	}
 	pkgs := loadStd(c, cb)
 	pkgs = append(pkgs, loadCorpus(c, cb, "liveness")...)
+	runStaleIndex(c, pkgs)
 	nCoro, sumM, sumM0, sumG, nCSPs, nWithSaved := 0, 0, 0, 0, 0, 0
 	sumMC, nCSPC := 0, 0
 	sst := &scratchStats{}
